@@ -207,6 +207,8 @@ class Interp(Ops):
     def contains(self, container: V, x: V):
         if isinstance(container, VOpt):
             container = self.unopt(container)
+        if isinstance(x, VOpt) and not isinstance(container, (VTuple, VList)):
+            x = self.unopt(x)
         if isinstance(container, (VTuple, VList)):
             return _or([self.eq(x, y) for y in self.items_of(container)])
         if isinstance(container, VDict):
@@ -215,7 +217,7 @@ class Interp(Ops):
             return kx in d
         if isinstance(container, VSet):
             return z3.Select(self.st.heap[(container.ref, "set")], term_of(x))
-        if isinstance(container, VMap):
+        if isinstance(container, VMap) or getattr(container, "kind", "") == "hmap":
             return z3.Select(self.st.heap[(container.ref, "dom")], term_of(x))
         if isinstance(container, VSeq):
             xt = term_of(x)
@@ -280,7 +282,12 @@ class Interp(Ops):
         mod = f.finfo.module if f is not None else None
         if mod is not None:
             if name in mod.classes:
-                return VClass(name)
+                return VClass(mod.classes[name].name)
+            imp = self.repo.resolve_import(mod, name) if name in mod.imports else None
+            if imp is not None and imp[0] == "class":
+                return VClass(imp[1].name)
+            if imp is not None and imp[0] == "func" and name not in self.lib:
+                return VClosure(imp[1], None)
             if name in mod.functions and "." not in name:
                 return VClosure(mod.functions[name], None)
             if name in mod.globals and name not in self.lib:
@@ -500,7 +507,7 @@ class Interp(Ops):
     # ------------------------------------------------------------------ attribute access
     def mangle(self, attr: str, fr: Frame) -> str:
         if attr.startswith("__") and not attr.endswith("__") and fr.cls is not None:
-            return "_" + fr.cls.name.lstrip("_") + attr
+            return "_" + fr.cls.pyname.lstrip("_") + attr
         return attr
 
     def e_Attribute(self, e, fr):
@@ -577,7 +584,7 @@ class Interp(Ops):
             if fi is None and attr.startswith("_") and "__" in attr[1:]:
                 # privately mangled method name: _Class__name
                 for c2 in self.repo.mro(ci):
-                    pre = "_" + c2.name.lstrip("_") + "__"
+                    pre = "_" + c2.pyname.lstrip("_") + "__"
                     if attr.startswith(pre) and ("__" + attr[len(pre):]) in c2.methods:
                         fi = c2.methods["__" + attr[len(pre):]]
                         break
@@ -874,6 +881,8 @@ class Interp(Ops):
                 c = self.find_contract_for_method(fn.cls, fn.name)
             if c is None:
                 raise Unsupported(f"no contract for callee {fn.cls}.{fn.name}")
+            if fn.finfo is None and "::" in c.fn and c.params is None:
+                fn = VMethod(fn.obj, fn.cls, fn.name, self.repo.func(c.fn))
             is_async = c.is_async if c.is_async is not None else (fn.finfo.is_async if fn.finfo else False)
             if is_async and not awaited:
                 return VCoro(fn, args, kwargs, node)
@@ -945,6 +954,17 @@ class Interp(Ops):
                         raise_("TypeError", f"missing argument {n}")
                     vals[n] = self.eval(default, Frame(FuncInfo("<class>", ci.path, ci.node, ci, ci.module, [], ""), cls=ci))
             return self.new_obj(cls, {n: vals[n] for n in names})
+        if ci.is_dataclass and ci.name in self.db.symbolic_classes:
+            fields = self.repo.all_fields(ci)
+            names = [f[0] for f in fields]
+            vals = dict(zip(names, args))
+            vals.update(kwargs)
+            if set(vals) != set(names):
+                raise Unsupported(f"symbolic-identity class {cls}: all fields must be given")
+            o = VObj(ci.name, self.st.fresh("new_" + ci.pyname, obj_sort(ci.name)))
+            for n in names:
+                self.st.assume(_b(self.eq(self.get_field(o, n), vals[n])))
+            return o
         if ci.is_dataclass:
             fields = self.repo.all_fields(ci)
             names = [f[0] for f in fields]
